@@ -30,6 +30,13 @@ CLAIMED["C06"] = ("jaxpr->SMT (z3) of custom_fdtd_forward chains vs one call and
                   "bounded SMT verification: for every split point the chained partial runs equal the single run for all initial fields, PML auxiliaries and detector-state contents; run_fdtd on a container holding arbitrary leftovers (and a second run from returned arrays) equals the fresh run; reset zeroes every time-dependent leaf and keeps the materials",
                   "reals for floats (x*0=0); T <= 7; materials concrete", "4/C06")
 
+CLAIMED["C10"] = ("jaxpr->SMT (z3) of T forward steps with symbolic source amplitude factors and initial fields; linearity by term substitution",
+                  "bounded SMT verification: final fields and field/phasor detector records equal sum_k a_k F(e_k,0) + F(0,x) for all real amplitude factors a and initial states x; energy and Poynting records of a run scaled by a common factor s equal s^2 times the unscaled records for all real s",
+                  "reals for floats; T <= 6; dipole (electric/magnetic), uniform and Gaussian plane sources; PML and periodic boundaries; materials concrete", "4/C10")
+CLAIMED["C11"] = ("jaxpr->SMT (z3) of the same scene placed with real and with forced complex field storage",
+                  "bounded SMT verification: for all real initial fields the real parts of the complex run equal the real run exactly, the imaginary parts are exactly 0 and all detector states agree (volume-reduced records: up to 1e-9 relative, decided by a boxed tolerance query because the two placements fold their weight constants differently)",
+                  "reals for floats; T <= 6; PML / PEC / PMC / periodic faces; dipole, plane and Gaussian sources; all detector kinds of the shared scene", "4/C11")
+
 NOT_APPLICABLE = {
     "C12": "numerical accuracy bound (1e-6 residual energy after >=1e3 steps on >=40^3 cells in floating point); no algebraic identity, far beyond any bounded real-arithmetic encoding",
     "C13": "1e-3 power-ratio bound after hundreds of steps (TFSF leakage is small but non-zero by design); not an identity, out of reach for bounded real arithmetic",
